@@ -62,3 +62,57 @@ def exp_neg(v):
 
 def sign_of(v):
     return v._real._s if cls_name(v) == 'Float' else False
+
+
+# ---------------------------------------------------------------------------
+# P2: emitted code of operations (semantics.rst E-Op: every rounded operator rounds under the ACTIVE context C,
+# which the generated code holds in the variable __ctx__)
+
+ROUNDED_UNARY = ('Abs', 'Sqrt', 'Neg', 'Cbrt', 'Ceil', 'Floor', 'NearbyInt', 'RoundInt', 'Trunc', 'Acos', 'Asin', 'Atan',
+                 'Cos', 'Sin', 'Tan', 'Acosh', 'Asinh', 'Atanh', 'Cosh', 'Sinh', 'Tanh', 'Exp', 'Exp2', 'Expm1', 'Log',
+                 'Log10', 'Log1p', 'Log2', 'Erf', 'Erfc', 'Lgamma', 'Tgamma', 'IsFinite', 'IsInf', 'IsNan', 'IsNormal',
+                 'Signbit', 'Round', 'Cast', 'Logb', 'Dim', 'Fst', 'Snd', 'Enumerate', 'Sum')
+ROUNDED_BINARY = ('Add', 'Sub', 'Mul', 'Div', 'Copysign', 'Fdim', 'Mod', 'Fmod', 'Remainder', 'Hypot', 'Atan2', 'Pow',
+                  'RoundAt', 'Size')
+UNROUNDED_HELPER = {'Len': '__fpy_len', 'AMin': '__fpy_min', 'AMax': '__fpy_max', 'AnyOf': '__fpy_any', 'AllOf': '__fpy_all'}
+
+
+def is_name(n, ident, ctxname):
+    return cons_name(n) == 'Name' and n.id == ident and cons_name(n.ctx) == ctxname
+
+
+def ctx_keyword(k):
+    """the keyword argument  ctx=__ctx__  (the active context is passed by name)"""
+    return cons_name(k) == 'keyword' and k.arg == 'ctx' and is_name(k.value, '__ctx__', 'Load')
+
+
+def rounded_call(r, cls):
+    """Call(Name('__fpy_<cls>'), ..., keywords=[ctx=__ctx__])"""
+    call = cons_name(r) == 'Call'
+    return {
+        'is_call': call,
+        'callee': is_name(r.func, '__fpy_' + cls, 'Load') if call else False,
+        'ctx_keyword': (len(r.keywords) == 1 and ctx_keyword(r.keywords[0])) if call else False,
+    }
+
+
+def plain_call(r, fname):
+    """Call(Name(fname), ..., keywords=[]): an unrounded helper, no context"""
+    return cons_name(r) == 'Call' and is_name(r.func, fname, 'Load') and len(r.keywords) == 0
+
+
+def is_none_const(n):
+    return cons_name(n) == 'Constant' and n.value is None
+
+
+def unrounded_unary(r, cls, a):
+    """the unary nodes that do not round (derived-semantics.rst): Not, Len, Range1, AMin/AMax, AnyOf/AllOf"""
+    if cls == 'Not':
+        return {'not': cons_name(r) == 'UnaryOp' and cons_name(r.op) == 'Not' and r.operand == a}
+    if cls == 'Len':
+        inner = r.args[0] if (plain_call(r, '__fpy_fraction') and len(r.args) == 1) else None
+        return {'len': (plain_call(inner, '__fpy_len') and len(inner.args) == 1 and inner.args[0] == a) if inner is not None else False}
+    if cls == 'Range1':
+        return {'range': plain_call(r, '__fpy_range') and len(r.args) == 3 and is_none_const(r.args[0]) and r.args[1] == a
+                and is_none_const(r.args[2])}
+    return {'helper': plain_call(r, UNROUNDED_HELPER[cls]) and len(r.args) == 1 and r.args[0] == a}
